@@ -62,6 +62,12 @@ func c01Class(err error) (string, int64) {
 			return "dup", se.ByteOffset
 		case jsontext.VerifErrClass(inner) == 3:
 			return "depth", se.ByteOffset
+		case inner == jsontext.ErrNonStringName:
+			return "nonstring", se.ByteOffset
+		case jsontext.VerifErrClass(inner) == 5:
+			return "missing", se.ByteOffset
+		case jsontext.VerifErrClass(inner) == 2:
+			return "badns", se.ByteOffset
 		}
 		if errors.As(inner, &te) {
 			if te.Label == "character" {
@@ -210,22 +216,25 @@ func (w *c01Worker) rvLoop(b []byte, r io.Reader, oi int) (int, string, int64) {
 	}
 }
 
-// ReadToken loop: completed top-level values, final class.
-func (w *c01Worker) rtLoop(b []byte, r io.Reader, oi int) (int, string) {
+// ReadToken loop: completed top-level values, final class, offset.
+func (w *c01Worker) rtLoop(b []byte, r io.Reader, oi int) (int, string, int64) {
 	w.dec.Reset(r, c01Opts[oi]...)
 	cnt, toks := 0, 0
 	for {
 		_, err := w.dec.ReadToken()
 		if err != nil {
-			cl, _ := c01Class(err)
-			return cnt, cl
+			cl, off := c01Class(err)
+			if cl == "ioeof" {
+				off = int64(len(b))
+			}
+			return cnt, cl, off
 		}
 		toks++
 		if w.dec.StackDepth() == 0 {
 			cnt++
 		}
 		if toks > 2*len(b)+2 {
-			return cnt, "runaway"
+			return cnt, "runaway", -1
 		}
 	}
 }
@@ -303,10 +312,10 @@ func (w *c01Worker) flush() {
 		var model []string
 		if ans != nil {
 			model = strings.Split(ans[i], " | ")
-			if len(b) > c01BigInput && len(model) == 8 {
+			if len(b) > c01BigInput && len(model) == 12 {
 				model = append(make([]string, 8), model...)
 			}
-			if len(model) != 16 {
+			if len(model) != 20 {
 				fail("C01: oracle answered %q for input %s", trunc(ans[i], 200), trunc(hx(b), 200))
 			}
 		}
@@ -443,9 +452,25 @@ func (w *c01Worker) one(b []byte, tag string, model []string) {
 			if got := fmt.Sprintf("%d %s %d", cnt, cl, off); got != ms && cnt == mcnt && c01Coarse(cl) == mcoarse {
 				w.hit("note:streaming-class/offset-differs-from-buffered")
 			}
-			cnt, cl = w.rtLoop(b, bytes.NewBuffer(b), oi)
+			cnt, cl, off = w.rtLoop(b, bytes.NewBuffer(b), oi)
 			check("ReadToken-loop(buffer)", cnt, cl)
-			cnt, cl = w.rtLoop(b, &c01ChunkReader{b, chunk}, oi)
+			if model != nil {
+				// correspondence of the token path (Model/TokenLoop.lean): values, class and offset
+				if got := fmt.Sprintf("%d %s %d", cnt, cl, off); got != model[16+oi] {
+					kind := "corr-tokens"
+					mf := strings.Fields(model[16+oi])
+					if mf[0] != strconv.Itoa(cnt) || (mf[1] == "ioeof") != (cl == "ioeof") {
+						kind = "accept-mismatch"
+					}
+					c.Violate(kind, "ReadToken-loop", b, map[string]any{"opts": oi, "impl": got, "model": model[16+oi], "broken": "correspondence wire tokens"})
+				}
+				// the model's two paths agree on the verdict (token_value, checked here on every input)
+				mt := strings.Fields(model[16+oi])
+				if mt[0] != msf[0] || (mt[1] == "ioeof") != (msf[1] == "ioeof") || (msf[1] == "eof" && mt[1] != "eof") {
+					c.Violate("corr-token-value", "tokens-vs-stream", b, map[string]any{"opts": oi, "tokens": model[16+oi], "stream": ms, "broken": "model: token path and value path disagree"})
+				}
+			}
+			cnt, cl, _ = w.rtLoop(b, &c01ChunkReader{b, chunk}, oi)
 			check("ReadToken-loop(io.Reader)", cnt, cl)
 		}); p != nil {
 			c.Panic("Decoder", b, p, map[string]any{"opts": oi})
@@ -853,8 +878,10 @@ func runC01(c *Ctx) {
 			}
 		}
 	}
-	// 8. wide objects around the namespace representation switch (>64 names or >1024 name bytes)
-	nwide := c.N(60, 3000)
+	// 8. wide objects around the namespace representation switch (>64 names or >1024 name bytes), with and without a
+	// (respelled) duplicate, and the SAME duplicate-free object again as a sibling (array element, member value, next
+	// top-level value, nested one level deeper): a namespace slot is reused and must start empty
+	nwide := c.N(160, 3000)
 	for k := 0; k < nwide; k += 10 {
 		addJob(func(w *c01Worker, r *rand.Rand) {
 			for i := 0; i < 10; i++ {
@@ -864,25 +891,48 @@ func runC01(c *Ctx) {
 					n, nameLen = 60+r.IntN(11), 3+r.IntN(6)
 				case 1:
 					n, nameLen = 120+r.IntN(21), 3+r.IntN(6)
-				case 2: // few names, > 1024 name bytes
-					n = 8 + r.IntN(30)
-					nameLen = (950 + r.IntN(200)) / n
+				case 2: // few names, around and above 1024 name bytes
+					n = 3 + r.IntN(35)
+					nameLen = (900 + r.IntN(600)) / n
 				default:
 					n, nameLen = 1+r.IntN(70), 1+r.IntN(40)
 				}
-				dupAt := -1
-				switch r.IntN(4) {
+				t0 := gjWideObject(r, n, nameLen, -1, false)
+				w.add(t0, "wide-object")
+				cat := func(parts ...string) []byte {
+					var o []byte
+					for _, p := range parts {
+						if p == "@" {
+							o = append(o, t0...)
+						} else {
+							o = append(o, p...)
+						}
+					}
+					return o
+				}
+				switch r.IntN(5) {
 				case 0:
-					dupAt = r.IntN(n)
+					w.add(cat("[", "@", ",", "@", "]"), "wide-object-siblings")
+				case 1:
+					w.add(cat("@", " ", "@"), "wide-object-siblings")
+				case 2:
+					w.add(cat(`{"a":`, "@", `,"b":`, "@", "}"), "wide-object-siblings")
+				case 3:
+					w.add(cat("[[", "@", "],{\"x\":", "@", "}]"), "wide-object-siblings")
+				default:
+					w.add(cat("[", "@", ",", `{"0_":1}`, ",", "@", ",", "@", "]"), "wide-object-siblings")
+				}
+				dupAt := r.IntN(n)
+				switch r.IntN(3) {
 				case 1:
 					dupAt = n - 1 - r.IntN(min(n, 3))
 				case 2:
 					dupAt = r.IntN(min(n, 3))
 				}
 				t := gjWideObject(r, n, nameLen, dupAt, r.IntN(2) == 0)
-				w.add(t, "wide-object")
+				w.add(t, "wide-object-dup")
 				if r.IntN(3) == 0 {
-					w.add(append(append([]byte(`[1,`), t...), ']'), "wide-object")
+					w.add(append(append([]byte(`[1,`), t...), ']'), "wide-object-dup")
 				}
 			}
 		})
